@@ -393,3 +393,58 @@ V("C03-rename-span-equiv", "C03", [], [(BASE, """                term_span = (
                 scoped_terms: Iterable[ScopedTerm] = self._simplify_scoped_terms(new_span)
                 spanned.update(new_span)""")])
 V("C03-hash-frozenset-equiv", "C03", [], [(STERM, "        return hash(tuple(sorted(self.factors)))", "        return hash(frozenset(self.factors))")])
+
+# ----------------------------------------------------------------------------------------- C05
+V("C05-revert-shortcircuit", "C05", ["C05.R2"], [(CONTRASTS, '            if output in ("narwhals", "pandas"):\n                encoded = pandas.DataFrame(\n                    index=(', '            if output == "pandas":\n                encoded = pandas.DataFrame(\n                    index=(')],
+  "origin: revert bd75fd2 (C(A) with one level under the narwhals output raises)")
+V("C05-dummy-no-narwhals", "C05", ["C05.R2"], [(CONTRASTS, '    if output in ("narwhals", "pandas", "numpy"):\n        categories = list(data.cat.categories)', '    if output in ("pandas", "numpy"):\n        categories = list(data.cat.categories)')])
+V("C05-narwhals-combine-no-numpy", "C05", ["C05.R2"], [(NARWHALS, '        if spec.output == "numpy":\n            return combined.to_numpy()\n', '')])
+V("C05-register-extra-output", "C05", ["C05.R2"], [(NARWHALS, 'REGISTER_OUTPUTS: Sequence[str] = ("narwhals", "pandas", "numpy", "sparse")', 'REGISTER_OUTPUTS: Sequence[str] = ("narwhals", "pandas", "numpy", "sparse", "polars")')])
+V("C05-sibling-categorical-drift", "C05", ["C05.R1"], [(NARWHALS, "                reduced_rank=False,\n                output=", "                reduced_rank=reduced_rank,\n                output=")])
+V("C05-context-dropped", "C05", ["C05.R3"], [(SPEC, "            self.get_materializer(data, context=context).get_model_matrix(", "            self.get_materializer(data).get_model_matrix(")])
+V("C05-context-dropped-joint", "C05", ["C05.R3"], [(SPEC, "                data, context=context, **(materializer_params or {})\n            ).get_model_matrix(self, drop_rows=drop_rows)", "                data, **(materializer_params or {})\n            ).get_model_matrix(self, drop_rows=drop_rows)")])
+V("C05-overrides-ignored", "C05", ["C05.R3"], [(FORMULA, """        from .model_spec import ModelSpec
+
+        return ModelSpec.from_spec(self, **spec_overrides).get_model_matrix(
+            data, context=context, drop_rows=drop_rows
+        )
+
+    @property
+    def required_variables(self) -> set[Variable]:
+        \"\"\"
+        The set of variables required in the data order to materialize this
+        formula.
+
+        Attempts are made to restrict these variables only to those expected in
+        the data, and not, for example, those associated with transforms and/or
+        values present in the evaluation namespace by default (e.g. `y ~ C(x)`
+        would include only `y` and `x`). This may not always be possible for
+        more advanced formulae that insert constants into the formula via the
+        evaluation context rather than the data context.
+        \"\"\"
+
+        def factor_variables""", """        from .model_spec import ModelSpec
+
+        return ModelSpec.from_spec(self).get_model_matrix(
+            data, context=context, drop_rows=drop_rows
+        )
+
+    @property
+    def required_variables(self) -> set[Variable]:
+        \"\"\"
+        The set of variables required in the data order to materialize this
+        formula.
+
+        Attempts are made to restrict these variables only to those expected in
+        the data, and not, for example, those associated with transforms and/or
+        values present in the evaluation namespace by default (e.g. `y ~ C(x)`
+        would include only `y` and `x`). This may not always be possible for
+        more advanced formulae that insert constants into the formula via the
+        evaluation context rather than the data context.
+        \"\"\"
+
+        def factor_variables""")])
+V("C05-sugar-wrong-data", "C05", ["C05.R3"], [(SUGAR, "        .get_materializer(data, context=_context)", "        .get_materializer({}, context=_context)")])
+V("C05-materializer-overrides-ignored", "C05", ["C05.R3"], [(BASE, "            spec, context=self.layered_context, **spec_overrides\n", "            spec, context=self.layered_context\n")])
+V("C05-abstract-not-overridden", "C05", ["C05.R4"], [(NARWHALS, "    def _combine_columns(\n", "    def _combine_cols(\n")])
+V("C05-positional-equiv", "C05", [], [(SPEC, "            self.get_materializer(data, context=context).get_model_matrix(", "            self.get_materializer(data, context).get_model_matrix(")])
